@@ -46,7 +46,7 @@ struct CoreT {
 	Registry registry;
 	TransitionSet requests;
 	HFSM2_IF_PLANS(PlanData planData);
-	HFSM2_IF_TRANSITION_HISTORY(TransitionTargets transitionTargets);
+	HFSM2_IF_TRANSITION_HISTORY(TransitionTargets transitionTargets{INVALID_SHORT});
 	HFSM2_IF_TRANSITION_HISTORY(TransitionSets previousTransitions);
 	HFSM2_IF_UTILITY_THEORY(RNG& rng);
 	HFSM2_IF_LOG_INTERFACE(Logger* logger);
